@@ -391,16 +391,25 @@ def expand_keyword_dicts(tree: ast.Module) -> int:
 # `self._m(...)` that is the whole right-hand side of an assignment, the whole value of a `return`, or a whole expression
 # statement, in another method of the same class, is replaced by the body with parameters bound and locals renamed.
 
+def _trivial_body(m: ast.FunctionDef) -> bool:
+    """Docstring / pass / `raise NotImplementedError` only: a hook for subclasses to fill in, not a helper to read."""
+    body = [b for b in m.body if not (isinstance(b, ast.Expr) and isinstance(b.value, ast.Constant))]
+    return all(isinstance(b, ast.Pass) or (isinstance(b, ast.Raise) and b.exc is not None and 'NotImplemented' in ast.unparse(b.exc)) for b in body)
+
+
 def _method_qualifies(m: ast.FunctionDef) -> bool:
+    """A private helper method that can be read in place of its call: its only `return <value>` is its last statement
+    (a function), or it has no `return` at all (a procedure, inlined where its call is a statement of its own)."""
     if not m.name.startswith('_') or m.name.startswith('__') or m.decorator_list or m.args.vararg or m.args.kwarg or m.args.posonlyargs:
         return False
-    if not m.args.args or not m.body or not isinstance(m.body[-1], ast.Return) or m.body[-1].value is None:
+    if not m.args.args or not m.body or _trivial_body(m):
         return False
+    is_function = isinstance(m.body[-1], ast.Return) and m.body[-1].value is not None
     body = [b for b in m.body if not (isinstance(b, ast.Expr) and isinstance(b.value, ast.Constant))]
-    if len(body) < 2:
+    if is_function and len(body) < 2:
         return False  # a one-expression method is read through by the summaries instead
     for n in ast.walk(m):
-        if n is m or n is m.body[-1]:
+        if n is m or (is_function and n is m.body[-1]):
             continue
         if isinstance(n, (ast.Return, ast.Yield, ast.YieldFrom, ast.Await, ast.Nonlocal, ast.Global, ast.FunctionDef, ast.AsyncFunctionDef, ast.ClassDef, ast.Lambda)):
             return False
@@ -409,8 +418,49 @@ def _method_qualifies(m: ast.FunctionDef) -> bool:
     return True
 
 
-def _inline_methods_in_class(c: ast.ClassDef) -> int:
+def _const_truth(t: ast.AST) -> Optional[bool]:
+    if isinstance(t, ast.Constant):
+        return bool(t.value)
+    if isinstance(t, ast.UnaryOp) and isinstance(t.op, ast.Not):
+        v = _const_truth(t.operand)
+        return None if v is None else (not v)
+    return None
+
+
+def _fold_constant_ifs(body: List[ast.stmt]) -> List[ast.stmt]:
+    """`if <constant>:` left behind by binding a parameter to a literal: keep the live branch only."""
+    out: List[ast.stmt] = []
+    for s in body:
+        if isinstance(s, ast.If):
+            v = _const_truth(s.test)
+            if v is not None:
+                live = _fold_constant_ifs(s.body if v else s.orelse)
+                out += live
+                if live and isinstance(live[-1], (ast.Raise, ast.Return)):
+                    break
+                continue
+        for fld in ('body', 'orelse', 'finalbody'):
+            blk = getattr(s, fld, None)
+            if isinstance(blk, list) and blk and isinstance(blk[0], ast.stmt):
+                new = _fold_constant_ifs(blk)
+                setattr(s, fld, new if new or fld != 'body' else [ast.Pass()])
+        out.append(s)
+        # nothing after an unconditional raise / return in this block is live
+        if isinstance(s, (ast.Raise, ast.Return)):
+            break
+    return out
+
+
+def _inline_methods_in_class(c: ast.ClassDef, extra: Optional[Dict[str, ast.FunctionDef]] = None, keep=()) -> int:
+    """`extra`: helper methods found outside the class body (base classes, the one class of the package a mixin's
+    `self._m` can refer to); `keep`: names never inlined."""
     helpers = {m.name: m for m in c.body if isinstance(m, ast.FunctionDef) and _method_qualifies(m)}
+    own = {m.name for m in c.body if isinstance(m, ast.FunctionDef)}
+    for k, m in (extra or {}).items():
+        if k not in own and _method_qualifies(m):
+            helpers[k] = m
+    for k in keep:
+        helpers.pop(k, None)
     if not helpers:
         return 0
     count = 0
@@ -432,20 +482,27 @@ def _inline_methods_in_class(c: ast.ClassDef) -> int:
         subst = {}
         pre = []
         for p, a in bound.items():
-            if p not in stored and isinstance(a, (ast.Name, ast.Constant)):
+            chain = a
+            while isinstance(chain, ast.Attribute):
+                chain = chain.value
+            if p not in stored and (isinstance(a, (ast.Name, ast.Constant)) or (isinstance(a, ast.Attribute) and isinstance(chain, ast.Name))):
                 subst[p] = a
             else:
                 asg = ast.Assign(targets=[ast.Name(id=ren[p], ctx=ast.Store())], value=a)
                 ast.copy_location(asg, at)
                 pre.append(ast.fix_missing_locations(asg))
         out = list(pre)
-        for hs in h.body[:-1]:
+        is_function = isinstance(h.body[-1], ast.Return)
+        for hs in (h.body[:-1] if is_function else h.body):
             if isinstance(hs, ast.Expr) and isinstance(hs.value, ast.Constant) and isinstance(hs.value.value, str):
                 continue
             x = _Rename({k: v for k, v in ren.items() if k not in subst}).visit(copy.deepcopy(hs))
             if subst:
                 x = _SubstExpr(subst).visit(x)
             out.append(ast.fix_missing_locations(x))
+        out = _fold_constant_ifs(out)
+        if not is_function:
+            return out, None
         rv = _Rename({k: v for k, v in ren.items() if k not in subst}).visit(copy.deepcopy(h.body[-1].value))
         if subst:
             rv = _SubstExpr(subst).visit(rv)
@@ -462,11 +519,38 @@ def _inline_methods_in_class(c: ast.ClassDef) -> int:
                 h = call_of(s.value)
             elif isinstance(s, ast.Expr):
                 h = call_of(s.value)
+            if h is None and isinstance(s, (ast.Assign, ast.Return, ast.Expr)) and isinstance(getattr(s, 'value', None), ast.Call) \
+                    and not (isinstance(s, ast.Assign) and len(s.targets) != 1):
+                # `return self.f(self._m(x), ...)`: the helper call is the first thing evaluated after the (pure) lookup of
+                # the callee - hoist it into a local and read it in place
+                outer = s.value
+                fn_chain = outer.func
+                while isinstance(fn_chain, ast.Attribute):
+                    fn_chain = fn_chain.value
+                if isinstance(fn_chain, ast.Name) and outer.args and call_of(outer.args[0]) is not None and call_of(outer.args[0]) is not host:
+                    h2 = call_of(outer.args[0])
+                    if isinstance(h2.body[-1], ast.Return):
+                        r2 = expand(h2, outer.args[0], s)
+                        if r2 is not None and r2[1] is not None:
+                            stmts2, rv2 = r2
+                            tmp = f'{h2.name}__result'
+                            asg = ast.Assign(targets=[ast.Name(id=tmp, ctx=ast.Store())], value=rv2)
+                            out += stmts2
+                            out.append(ast.fix_missing_locations(ast.copy_location(asg, s)))
+                            outer.args[0] = ast.copy_location(ast.Name(id=tmp, ctx=ast.Load()), outer)
+                            count += 1
+                            out.append(s)
+                            continue
             if h is not None and h is not host:
                 r = expand(h, s.value, s)
+                if r is not None and r[1] is None and not isinstance(s, ast.Expr):
+                    r = None    # a procedure's (None) result is used: leave the call alone
                 if r is not None:
                     stmts, rv = r
                     out += stmts
+                    if rv is None:
+                        count += 1
+                        continue
                     if isinstance(s, ast.Assign):
                         new = ast.Assign(targets=s.targets, value=rv)
                     elif isinstance(s, ast.Return):
@@ -487,7 +571,7 @@ def _inline_methods_in_class(c: ast.ClassDef) -> int:
             out.append(s)
         return out
 
-    for _round in range(2):
+    for _round in range(4):
         before = count
         for m in c.body:
             if isinstance(m, ast.FunctionDef):
